@@ -1,8 +1,8 @@
 # C07 — no unresolved $required or stray directive ever reaches the output.
-from .. import core, dgen, evalgen, gen, hist, histprop
+from .. import filepass, core, dgen, evalgen, gen, hist, histprop
 from ..core import F
 
-CLI = ()
+CLI = ("bkl",)
 HARNESS = True
 ASSUMPTIONS = ["theorems are about Model.Eval.validate/outputs_of; tie to validate.go/parser.go is this run's comparison of success/failure (and the required-field / invalid-directive class) and outputs"]
 RULE = ("layer chains (1-3 layers) with $required and directive-shaped strings/keys (known, unknown, wrong position, wrong argument type, upper-case and "
@@ -53,7 +53,15 @@ def dist_fn(dist, c, a, b):
 
 def run(ctx):
     n = 2000 if ctx.tier == "quick" else 40000
-    return histprop.run_history_property(ctx, "C07", gen_case, n, RULE, nontrivial, judge=judge, dist_fn=dist_fn)
+    stats = histprop.run_history_property(ctx, "C07", gen_case, n, RULE, nontrivial, judge=judge, dist_fn=dist_fn)
+    rng = core.Rng(ctx.seed + 1)
+    nf = 200 if ctx.tier == "quick" else 4000
+    cases = [gen_case(rng.fork("fc%d" % i)) for i in range(nf)]
+    done = filepass.run_layers_through_files(ctx, [filepass.layers_of_history(c) for c in cases], rng, "C07", "c07-disagreement")
+    stats["distribution"]["through_layer_files"] = done
+    stats["evaluations"] += done
+    stats["disagreements_checked"] = len(ctx.violations)
+    return stats
 
 
 def replay(ctx, payload):
